@@ -265,35 +265,57 @@ theorem eval_no_panic_partial (ops : List Op) (fns : List Bytes) (s : Bytes) (n 
 /-- clause "for every input string whatsoever, Evaluate returns a value or an error in bounded time without
     panicking" for the whole of `Evaluate` with symbolic operators — parse, final reduction, tree walk,
     `replaceVariables`, the argument loop of the functions and the nested `EvaluateNew`: for EVERY byte list, every
-    function table and every resolver whose answers contain no `$` (otherwise the Go loop in `replaceVariables` does
-    not terminate either) the model never reaches a Go panic and never exhausts a fuel.  The measure: every argument
-    text stored in a parsed tree is strictly shorter than the input (`parseTop_argsLt`), substitution does not
-    lengthen it, `NextArg` returns pieces of it — so each nested evaluation is on a strictly shorter text.  The second
-    hypothesis (an answer is not longer than `$name`) only serves the model's nesting budget `len + 1`, which the Go
-    code does not have. -/
-theorem evaluate_no_panic (fns : List Bytes) (resolve : Bytes → Bytes) (s : Bytes) (h36 : ∀ n, (36 : Nat) ∉ resolve n)
-    (hlen : ∀ n, (resolve n).length ≤ n.length + 1) :
-    evaluate stdOps fns (some resolve) (s.length + 1) s ≠ .panic :=
-  Eval.evaluate_no_panic stdOps fns table_lexable.ne (some resolve)
-    (by intro f hf; injection hf with hf; subst hf; exact ⟨h36, hlen⟩) _ s (Nat.lt_succ_self _)
+    function table and EVERY resolver whose answers contain no `$` (the one boundary: the Go loop in
+    `replaceVariables` re-scans its own output, so `$x ↦ "$x"` never returns) the model never reaches a Go panic, and
+    its nesting budget — which the Go code does not have; `.panic` also stands for exhausting it — is not exhausted
+    once it exceeds a finite bound `D`.  The measure: operand and argument texts of a parsed tree are infixes of the
+    input (`parseTop_infix`), strictly shorter (`parseTop_argsLt`); one substitution round per `$` lengthens an argument
+    text by a bounded amount and leaves no `$`; from then on every nested evaluation is on a strictly shorter,
+    `$`-free text. -/
+theorem evaluate_no_panic (fns : List Bytes) (resolve : Bytes → Bytes) (s : Bytes) (h36 : ∀ n, (36 : Nat) ∉ resolve n) :
+    ∃ D, ∀ d, D ≤ d → evaluate stdOps fns (some resolve) d s ≠ .panic :=
+  Eval.evaluate_terminates stdOps fns table_lexable.ne (some resolve)
+    (by intro f hf; injection hf with hf; subst hf; exact h36) s
 
-/-- the same for any operator table without an empty symbol, with or without a resolver, for every budget above the
-    input length, and for what the driver runs on every line (`evaluateReuse`, any previous evaluator state) -/
-theorem evaluate_no_panic_any (ops : List Op) (fns : List Bytes) (hne : SymsNonempty ops)
+/-- … with an explicit budget: when the answers for the names occurring in `s` are at most `K` bytes longer than
+    `$name`, every budget above `len(s)·(K+1) + 1` suffices; texts without `$` need no resolver hypothesis at all -/
+theorem evaluate_no_panic_budget (ops : List Op) (fns : List Bytes) (hne : SymsNonempty ops)
+    (resolve : Option (Bytes → Bytes)) (K : Nat) (s : Bytes)
+    (hres : ∀ f, resolve = some f → (∀ n, (36 : Nat) ∉ f n) ∧ (∀ n, n <:+: s → (f n).length ≤ n.length + 1 + K)) :
+    (∀ d, s.length * (K + 1) + 1 < d → evaluate ops fns resolve d s ≠ .panic) ∧
+    ((36 : Nat) ∉ s → ∀ d, s.length < d → evaluate ops fns resolve d s ≠ .panic) :=
+  ⟨Eval.evaluate_no_panic_growth ops fns hne resolve K s hres,
+   fun h d hd => Eval.evaluate_no_panic_closed ops fns hne resolve d s h hd⟩
+
+/-- … in particular what the driver runs on every line (`evaluateReuse`: any previous evaluator state, budget
+    `driverBudget`), for every resolver whose answers are `$`-free and at most 32 bytes longer than `$name` — the
+    resolvers of the harness (`@name`; the literal table) are of this kind — and for no resolver -/
+theorem evaluate_no_panic_driver (ops : List Op) (fns : List Bytes) (hne : SymsNonempty ops)
     (resolve : Option (Bytes → Bytes))
-    (hres : ∀ f, resolve = some f → (∀ n, (36 : Nat) ∉ f n) ∧ (∀ n, (f n).length ≤ n.length + 1)) (s : Bytes) :
-    (∀ d, s.length < d → evaluate ops fns resolve d s ≠ .panic) ∧
-    (∀ old, (evaluateReuse ops fns resolve old s).2 ≠ .panic) :=
-  ⟨fun d hd => Eval.evaluate_no_panic ops fns hne resolve hres d s hd,
-   fun old => by rw [evaluateReuse_snd]; exact Eval.evaluate_no_panic ops fns hne resolve hres _ s (Nat.lt_succ_self _)⟩
+    (hres : ∀ f, resolve = some f → (∀ n, (36 : Nat) ∉ f n) ∧ (∀ n, (f n).length ≤ n.length + 33)) (s : Bytes) (old : St) :
+    (evaluateReuse ops fns resolve old s).2 ≠ .panic := by
+  rw [evaluateReuse_snd]
+  refine Eval.evaluate_no_panic_growth ops fns hne resolve 32 s ?_ _ ?_
+  · intro f hf
+    exact ⟨(hres f hf).1, fun n _ => by have := (hres f hf).2 n; omega⟩
+  · unfold driverBudget; omega
 
-/-- clause "returns a value or an error": `Evaluate` of every byte list yields a value or an error -/
-theorem evaluate_total (fns : List Bytes) (resolve : Bytes → Bytes) (s : Bytes) (h36 : ∀ n, (36 : Nat) ∉ resolve n)
-    (hlen : ∀ n, (resolve n).length ≤ n.length + 1) :
-    (∃ v, evaluate stdOps fns (some resolve) (s.length + 1) s = .ok v) ∨
-      evaluate stdOps fns (some resolve) (s.length + 1) s = .err := by
-  have := evaluate_no_panic fns resolve s h36 hlen
-  cases h : evaluate stdOps fns (some resolve) (s.length + 1) s with
+/-- the same for any operator table without an empty symbol, with or without a resolver: termination for every
+    `$`-free resolver -/
+theorem evaluate_no_panic_any (ops : List Op) (fns : List Bytes) (hne : SymsNonempty ops)
+    (resolve : Option (Bytes → Bytes)) (h36 : ∀ f, resolve = some f → ∀ n, (36 : Nat) ∉ f n) (s : Bytes) :
+    ∃ D, ∀ d, D ≤ d → evaluate ops fns resolve d s ≠ .panic :=
+  Eval.evaluate_terminates ops fns hne resolve h36 s
+
+/-- clause "returns a value or an error": `Evaluate` of every byte list yields a value or an error, for every
+    resolver whose answers contain no `$` (with any sufficient budget) -/
+theorem evaluate_total (fns : List Bytes) (resolve : Bytes → Bytes) (s : Bytes) (h36 : ∀ n, (36 : Nat) ∉ resolve n) :
+    ∃ D, ∀ d, D ≤ d → (∃ v, evaluate stdOps fns (some resolve) d s = .ok v) ∨
+      evaluate stdOps fns (some resolve) d s = .err := by
+  obtain ⟨D, hD⟩ := evaluate_no_panic fns resolve s h36
+  refine ⟨D, fun d hd => ?_⟩
+  have := hD d hd
+  cases h : evaluate stdOps fns (some resolve) d s with
   | ok v => exact Or.inl ⟨v, rfl⟩
   | err => exact Or.inr rfl
   | panic => exact absurd h this
@@ -325,13 +347,15 @@ theorem evaluate_render (fns : List Bytes) (f : Bytes → Bytes) (e : X) (hw : e
     evaluate stdOps fns (some f) (depth + 1) (e.render lpOp rpOp ws) = .ok (e.substAll f).str :=
   X.evaluate_render_all stdOps fns f lpOp rpOp table_full table_var_stop e hw he ws hws depth hd
 
-/-- … in particular with the budget the driver uses (`evaluateReuse`: input length + 1), whatever the evaluator held
+/-- … in particular with the budget the driver uses (`evaluateReuse`: `driverBudget`), whatever the evaluator held
     before: the nesting depth of calls never exceeds the length of the text -/
 theorem evaluate_reuse_render (fns : List Bytes) (f : Bytes → Bytes) (e : X) (hw : e.WF stdOps fns lpOp.prec)
     (he : e.EvAll stdOps f) (ws : Nat → Bytes) (hws : ∀ k, Blank (ws k)) (old : St) :
     (evaluateReuse stdOps fns (some f) old (e.render lpOp rpOp ws)).2 = .ok (e.substAll f).str := by
   rw [evaluateReuse_snd]
-  exact evaluate_render fns f e hw he ws hws _ (X.cd_le_render lpOp rpOp e ws)
+  exact evaluate_render fns f e hw he ws hws _ (by
+    have := X.cd_le_render lpOp rpOp e ws
+    unfold driverBudget; omega)
 
 /-- mechanism "variable substitution" inside calls: `replaceVariables` run over the raw argument text of a rendered
     call yields the argument text of the call with the variables replaced (which `nextArg_split` then splits and a
@@ -563,19 +587,21 @@ theorem fixed_value_render (k : Nat) (z : Bool) (c : Cfg) (hk : cfg? k z = some 
     EvalFixed.evaluate c stdOps fns resolve (depth + 1) (e.render lpOp rpOp ws) = e.val c :=
   X.fx_evaluate_render c (fixed_cfg_one_ne_zero k z c hk) stdOps fns resolve lpOp rpOp table_full e hw he har ws hws depth hd
 
-/-- … in particular with the budget the driver uses (input length + 1) -/
+/-- … in particular with the budget the driver uses (`driverBudget`) -/
 theorem fixed_value_render_driver (k : Nat) (z : Bool) (c : Cfg) (hk : cfg? k z = some c) (fns : List Bytes)
     (resolve : Option (Bytes → Bytes)) (e : X) (hw : e.WF stdOps fns lpOp.prec) (he : e.Ev) (har : e.Ar)
     (ws : Nat → Bytes) (hws : ∀ k, Blank (ws k)) :
-    EvalFixed.evaluate c stdOps fns resolve ((e.render lpOp rpOp ws).length + 1) (e.render lpOp rpOp ws) = e.val c :=
-  fixed_value_render k z c hk fns resolve e hw he har ws hws _ (X.cd_le_render lpOp rpOp e ws)
+    EvalFixed.evaluate c stdOps fns resolve (driverBudget (e.render lpOp rpOp ws) + 1) (e.render lpOp rpOp ws) = e.val c :=
+  fixed_value_render k z c hk fns resolve e hw he har ws hws _ (by
+    have := X.cd_le_render lpOp rpOp e ws
+    unfold driverBudget; omega)
 
 /-- clause "whitespace never changes the result", values: two layouts of one expression have the same value -/
 theorem fixed_value_whitespace (k : Nat) (z : Bool) (c : Cfg) (hk : cfg? k z = some c) (fns : List Bytes)
     (resolve : Option (Bytes → Bytes)) (e : X) (hw : e.WF stdOps fns lpOp.prec) (he : e.Ev) (har : e.Ar)
     (ws₁ ws₂ : Nat → Bytes) (h₁ : ∀ k, Blank (ws₁ k)) (h₂ : ∀ k, Blank (ws₂ k)) :
-    EvalFixed.evaluate c stdOps fns resolve ((e.render lpOp rpOp ws₁).length + 1) (e.render lpOp rpOp ws₁) =
-      EvalFixed.evaluate c stdOps fns resolve ((e.render lpOp rpOp ws₂).length + 1) (e.render lpOp rpOp ws₂) := by
+    EvalFixed.evaluate c stdOps fns resolve (driverBudget (e.render lpOp rpOp ws₁) + 1) (e.render lpOp rpOp ws₁) =
+      EvalFixed.evaluate c stdOps fns resolve (driverBudget (e.render lpOp rpOp ws₂) + 1) (e.render lpOp rpOp ws₂) := by
   rw [fixed_value_render_driver k z c hk fns resolve e hw he har ws₁ h₁,
     fixed_value_render_driver k z c hk fns resolve e hw he har ws₂ h₂]
 
@@ -639,7 +665,7 @@ theorem div_by_zero_render (k : Nat) (z : Bool) (c : Cfg) (hk : cfg? k z = some 
     (hw : (X.bin o l r).WF stdOps fns lpOp.prec) (he : (X.bin o l r).Ev) (har : (X.bin o l r).Ar)
     (lv rv : Val) (x : Int) (hlv : l.val c = .ok lv) (hrv : r.val c = .ok rv) (hl : fixedFrom c lv = .ok x)
     (hr : fixedFrom c rv = .ok 0) (ws : Nat → Bytes) (hws : ∀ k, Blank (ws k)) :
-    EvalFixed.evaluate c stdOps fns resolve (((X.bin o l r).render lpOp rpOp ws).length + 1)
+    EvalFixed.evaluate c stdOps fns resolve (driverBudget ((X.bin o l r).render lpOp rpOp ws) + 1)
       ((X.bin o l r).render lpOp rpOp ws) = (if z then .ok (.num 0) else .err) := by
   rw [fixed_value_render_driver k z c hk fns resolve _ hw he har ws hws]
   have hz : c.zero = z := by
@@ -673,10 +699,10 @@ theorem sign_applies_to_operand_value (k : Nat) (z : Bool) (c : Cfg) (hk : cfg? 
     (hw2 : (X.bin o (.atom (some u) a) (.atom none b)).WF stdOps fns lpOp.prec)
     (hea : (44 : Nat) ∉ a ∧ (36 : Nat) ∉ a) (heb : (44 : Nat) ∉ b ∧ (36 : Nat) ∉ b) (hob : o.bin = true)
     (ws : Nat → Bytes) (hws : ∀ k, Blank (ws k)) :
-    EvalFixed.evaluate c stdOps fns resolve (((X.bin o (.atom none a) (.atom (some u) b)).render lpOp rpOp ws).length + 1)
+    EvalFixed.evaluate c stdOps fns resolve (driverBudget ((X.bin o (.atom none a) (.atom (some u) b)).render lpOp rpOp ws) + 1)
         ((X.bin o (.atom none a) (.atom (some u) b)).render lpOp rpOp ws) =
       (unary c u.sym (.str b)).bind (fun vb => binary c o.sym (.str a) vb) ∧
-    EvalFixed.evaluate c stdOps fns resolve (((X.bin o (.atom (some u) a) (.atom none b)).render lpOp rpOp ws).length + 1)
+    EvalFixed.evaluate c stdOps fns resolve (driverBudget ((X.bin o (.atom (some u) a) (.atom none b)).render lpOp rpOp ws) + 1)
         ((X.bin o (.atom (some u) a) (.atom none b)).render lpOp rpOp ws) =
       (unary c u.sym (.str a)).bind (fun va => binary c o.sym va (.str b)) := by
   have hu : u.un = true := by
@@ -771,7 +797,7 @@ theorem fixed_floor_spec (c : Cfg) (hm : Fixed.Mult c.mult) (x : Int) (hx : Fixe
 theorem fixed_value_no_panic (k : Nat) (z : Bool) (c : Cfg) (hk : cfg? k z = some c) (fns : List Bytes)
     (resolve : Option (Bytes → Bytes)) (e : X) (hw : e.WF stdOps fns lpOp.prec) (he : e.Ev) (har : e.Ar)
     (ws : Nat → Bytes) (hws : ∀ k, Blank (ws k)) :
-    EvalFixed.evaluate c stdOps fns resolve ((e.render lpOp rpOp ws).length + 1) (e.render lpOp rpOp ws) ≠ .panic := by
+    EvalFixed.evaluate c stdOps fns resolve (driverBudget (e.render lpOp rpOp ws) + 1) (e.render lpOp rpOp ws) ≠ .panic := by
   rw [fixed_value_render_driver k z c hk fns resolve e hw he har ws hws]
   exact X.val_ne_panic c e
 
@@ -782,7 +808,7 @@ theorem fixed_value_no_panic (k : Nat) (z : Bool) (c : Cfg) (hk : cfg? k z = som
     the float evaluators altogether), which stays tied by the `val` stream only -/
 def fixed_value_Statement : Prop :=
   ∀ (k : Nat) (z : Bool) (c : Cfg), cfg? k z = some c → ∀ (fns : List Bytes) (f : Bytes → Bytes) (s : Bytes),
-    (∀ n, (36 : Nat) ∉ f n) → EvalFixed.evaluate c stdOps fns (some f) (s.length + 1) s ≠ .panic
+    (∀ n, (36 : Nat) ∉ f n) → ∃ D, ∀ d, D ≤ d → EvalFixed.evaluate c stdOps fns (some f) d s ≠ .panic
 
 /-- composition with C03 (`Lemmas/Fixed64.lean`): whenever the exact intermediate results are representable, the
     operators on numbers yield the EXACT fixed-point results — sum, difference, product `⌊a·b / mult⌋` (toward zero),
